@@ -22,6 +22,14 @@ impl<'a, T: Settable<TerminalData, E>, E: Copy + Debug> ActuatorWrapper<'a, T, E
         unsafe { &*(&self.terminal as *const RefCell<Terminal<'a, E>>) }
     }
 }
+//Verification hook. `cfg(kani)` is only ever set by the Kani model checker.
+#[cfg(kani)]
+impl<'a, T: Settable<TerminalData, E>, E: Copy + Debug> ActuatorWrapper<'a, T, E> {
+    ///Read-only access to the wrapped settable for verification harnesses.
+    pub fn vk_inner(&self) -> &T {
+        &self.inner
+    }
+}
 impl<T: Settable<TerminalData, E>, E: Copy + Debug> Device<E> for ActuatorWrapper<'_, T, E> {
     fn update_terminals(&mut self) -> NothingOrError<E> {
         self.terminal.borrow_mut().update()?;
@@ -60,6 +68,14 @@ impl<'a, T: Getter<State, E>, E: Copy + Debug> GetterStateDeviceWrapper<'a, T, E
     ///Get a reference to this wrapper's terminal.
     pub fn get_terminal(&self) -> &'a RefCell<Terminal<'a, E>> {
         unsafe { &*(&self.terminal as *const RefCell<Terminal<'a, E>>) }
+    }
+}
+//Verification hook. `cfg(kani)` is only ever set by the Kani model checker.
+#[cfg(kani)]
+impl<'a, T: Getter<State, E>, E: Copy + Debug> GetterStateDeviceWrapper<'a, T, E> {
+    ///Read-only access to the wrapped getter for verification harnesses.
+    pub fn vk_inner(&self) -> &T {
+        &self.inner
     }
 }
 impl<T: Getter<State, E>, E: Copy + Debug> Device<E> for GetterStateDeviceWrapper<'_, T, E> {
